@@ -767,6 +767,7 @@ static bool parse_code_placeholder(TokenContext &ctx, Chunk &pc)
       }
    }
    ctx.restore();
+   pc.Str().clear();                  // or the text read so far ends up in the next token
    return(false);
 }
 
